@@ -288,6 +288,10 @@ def run(ctx):
             for rname in recs:
                 cfg.append((mname, flux, rname, ctx.tier))
     ctx.pmap("shift-1d", shard_1d, cfg)
+    first = {}
+    for c in cfg:
+        first.setdefault((MODELS[c[0]][1], c[2]), c)
+    ctx.pmap("shift-1d-reused-objects", core.Pooled(shard_1d), list(first.values()))
     cfg2 = []
     for flux in space.fluxes(space.euler.euler2d()):
         for rname in space.X2_ALL:
